@@ -145,6 +145,11 @@ def _get_broadcast_shape(shape1, shape2, is_result=False):
         If the two shapes cannot be broadcast together.
     """
     # https://stackoverflow.com/a/47244284/774273
+    if is_result and len(shape1) > len(shape2):
+        # zip() below only looks at the common trailing axes; an operand with more axes than the
+        # result shape can never be broadcast to it (NumPy: "input operand has more dimensions ...").
+        raise ValueError(f"operands could not be broadcast together with shapes {shape1}, {shape2}")
+
     if not all(
         (l1 == l2) or (l1 == 1) or ((l2 == 1) and not is_result)
         for l1, l2 in zip(shape1[::-1], shape2[::-1], strict=False)
